@@ -24,6 +24,10 @@ CLS = [None] + ["retired_%d" % k for k in range(1, 16)]      # no finding class 
 KINDS = {"CREATE": "CCreate", "DELETE": "CDelete", "RENAME": "CRename", "SUBSCRIBE": "CSubscribe",
          "UNSUBSCRIBE": "CUnsubscribe", "LIST": "CList", "LSUB": "CLsub", "STATUS": "CStatus",
          "SELECT": "CSelect", "APPEND": "CAppend"}
+# environment steps (no command line): restart of the IMAP side + login, LMTP delivery through the
+# delivery side's own DBManager (ham -> INBOX, spam -> Spam)
+ENV = ("RESTART", "DELIVER", "DELIVERSPAM")
+LMTP_MSG = "From: a@example.com\r\nTo: u@example.com\r\nSubject: d\r\n%s\r\nbody\r\n.\r\n"
 
 # names without any colliding feature: no LIKE wildcard, no case twins, no blanks/quotes
 CLEAN = ["Work", "Work/sub", "Work/sub/deep/er", "archive", "archive/2024", "b", "b/c", "b/c/d/e",
@@ -62,6 +66,8 @@ def encode(rng, name):
 
 def wire(cmd):
     k = cmd[0]
+    if k in ENV:
+        return ("<" + k + ">").encode()
     a = [x if isinstance(x, bytes) else x.encode("latin-1") for x in cmd[1:]]
     if k == "LIST" or k == "LSUB":
         return k.encode() + b' "" "*"'
@@ -88,6 +94,9 @@ def gen_history(rng, mode, length):
 
     for _ in range(length):
         r = rng.random()
+        if mode in ("clean", "mixed") and rng.random() < 0.07:
+            h.append((rng.choice(ENV),))
+            continue
         if r < 0.26:
             n = rng.choice(pool)
             h.append(("CREATE", encode(rng, n)))
@@ -176,6 +185,44 @@ def gen_recur(rng):
     return h
 
 
+def gen_env(rng):
+    """a default name is removed (DELETE Spam, RENAME of Sent/Drafts/Trash/Spam) or kept, then the store
+    is opened afresh -- first delivery through the delivery side's manager, IMAP restart + login --
+    interleaved with naming commands; LIST and STATUS of the removed names after every fresh open"""
+    h = []
+    gone = []
+    pool = ["Work", "Drafts-2023", "old/Sent", "x y", "b"]
+    for _ in range(rng.randint(1, 3)):
+        r = rng.random()
+        if r < 0.35 and "Spam" not in gone:
+            h.append(("DELETE", encode(rng, "Spam")))
+            gone.append("Spam")
+        elif r < 0.85:
+            d = rng.choice([x for x in ("Sent", "Drafts", "Trash", "Spam") if x not in gone] or ["Work"])
+            h.append(("RENAME", encode(rng, d), encode(rng, rng.choice(pool) + str(len(h)))))
+            gone.append(d)
+        else:
+            h.append(("CREATE", encode(rng, rng.choice(pool))))
+        if rng.random() < 0.4:
+            h.append(("APPEND", encode(rng, "INBOX")))
+    for rnd in range(rng.randint(2, 4)):
+        h.append((rng.choice(["DELIVER", "RESTART", "DELIVER", "DELIVERSPAM"]),))
+        h.append(("LIST",))
+        for g in gone[:2]:
+            h.append(("STATUS", encode(rng, g)))
+        r = rng.random()
+        if r < 0.3 and gone:
+            h.append(("CREATE", encode(rng, rng.choice(gone))))
+        elif r < 0.5:
+            h.append(("RENAME", encode(rng, "INBOX"), encode(rng, "moved%d" % rnd)))
+        elif r < 0.7:
+            h.append(("SUBSCRIBE", encode(rng, rng.choice(["INBOX", "Work"]))))
+            h.append(("LSUB",))
+    h.append(("RESTART",))
+    h.append(("LIST",))
+    return h
+
+
 def scenario(h):
     ops = [{"op": "open", "conn": "c"},
            {"op": "send", "conn": "c", "data": "a0 LOGIN u@example.com pw\r\n", "until": "tag:a0"},
@@ -183,6 +230,23 @@ def scenario(h):
     for i, cmd in enumerate(h):
         tag = "t%d" % i
         line = tag.encode() + b" " + wire(cmd)
+        if cmd[0] == "RESTART":
+            # new DBManagers on the same directory (the delivery side's one is dropped too), then
+            # the first login: GetUserDB opens the user's store again
+            ops.append({"op": "restart"})
+            ops.append({"op": "open", "conn": "c"})
+            ops.append({"op": "send", "conn": "c", "data": "%s LOGIN u@example.com pw\r\n" % tag, "until": "tag:" + tag})
+            ops.append({"op": "dump"})
+            continue
+        if cmd[0] in ("DELIVER", "DELIVERSPAM"):
+            l = "l%d" % i
+            ops.append({"op": "lmtp_open", "conn": l, "separate_mgr": True})
+            for data in ("LHLO x\r\n", "MAIL FROM:<a@example.com>\r\n", "RCPT TO:<u@example.com>\r\n", "DATA\r\n"):
+                ops.append({"op": "send", "conn": l, "data": data, "until": "lmtp:1"})
+            ops.append({"op": "send", "conn": l, "data": LMTP_MSG % ("X-Spam-Status: Yes, score=9\r\n" if cmd[0] == "DELIVERSPAM" else ""), "until": "lmtp:1", "timeout_ms": 8000})
+            ops.append({"op": "send", "conn": l, "data": "QUIT\r\n", "until": "lmtp:1"})
+            ops.append({"op": "dump"})
+            continue
         if cmd[0] == "APPEND":
             ops.append({"op": "c11_append", "conn": "c", "tag": tag, "line": C.latin(line), "literal": C.latin(MSG)})
         else:
@@ -230,8 +294,25 @@ def parse_reply(recv, how, tag):
     return rc, view
 
 
+def step_positions(h):
+    """index of (reply op, dump op) of every step in scenario(h)"""
+    pos = []
+    j = 3
+    for cmd in h:
+        if cmd[0] == "RESTART":
+            pos.append((j + 2, j + 3))
+            j += 4
+        elif cmd[0] in ("DELIVER", "DELIVERSPAM"):
+            pos.append((j + 5, j + 7))
+            j += 8
+        else:
+            pos.append((j, j + 1))
+            j += 2
+    return pos
+
+
 def observe(h, res):
-    """-> (initial state, [ostep...], truncated history) or None when the run is unusable"""
+    """-> (initial state, [ostep...]) or None when the run is unusable"""
     obs = res.get("obs") or []
     if res.get("crashed") or len(obs) < 3:
         return None
@@ -239,16 +320,19 @@ def observe(h, res):
     if init is None:
         return None
     steps = []
-    for i, cmd in enumerate(h):
-        j = 3 + 2 * i
-        if j + 1 >= len(obs):
+    for i, (cmd, (jr, jd)) in enumerate(zip(h, step_positions(h))):
+        if jd >= len(obs):
             break
-        rc, view = parse_reply(obs[j].get("recv", ""), obs[j].get("how"), "t%d" % i)
-        st = state_of_dump(obs[j + 1])
+        if cmd[0] in ("DELIVER", "DELIVERSPAM"):
+            rep = C.unlatin(obs[jr].get("recv", ""))
+            rc, view = ("ROk" if rep.startswith(b"250") else "RNo" if rep[:1] in (b"4", b"5") else None), []
+        else:
+            rc, view = parse_reply(obs[jr].get("recv", ""), obs[jr].get("how"), "t%d" % i)
+        st = state_of_dump(obs[jd])
         if st is None:
             break
         if rc is None:
-            steps.append((st, "RBad", view, "noreply:" + str(obs[j].get("how"))))
+            steps.append((st, "RBad", view, "noreply:" + str(obs[jr].get("how"))))
             break
         steps.append((st, rc, view, None))
         if rc == "RPanic":
@@ -262,6 +346,14 @@ def coq_box(b):
 
 
 def coq_cmd(cmd):
+    if cmd[0] == "RESTART":
+        return "ERestart"
+    if cmd[0] in ("DELIVER", "DELIVERSPAM"):
+        return "(EDeliver %s)" % ("true" if cmd[0] == "DELIVERSPAM" else "false")
+    return "(ECmd " + coq_cmd_imap(cmd) + ")"
+
+
+def coq_cmd_imap(cmd):
     return "(" + " ".join([KINDS[cmd[0]]] + [C.coq_str(a if isinstance(a, bytes) else a.encode("latin-1")) for a in cmd[1:]]) + ")"
 
 
@@ -438,12 +530,13 @@ def run(chk):
     nlike = 0
     # 3. generated histories
     quick = chk.tier == "quick"
-    n_clean, n_mixed, n_bad, n_na, n_rec = (55, 50, 10, 6, 30) if quick else (600, 600, 80, 30, 300)
+    n_clean, n_mixed, n_bad, n_na, n_rec, n_env = (50, 45, 10, 6, 25, 20) if quick else (600, 600, 80, 30, 300, 200)
     hs = ([gen_history(rng, "clean", rng.randint(10, 16)) for _ in range(n_clean)]
           + [gen_history(rng, "mixed", rng.randint(10, 16)) for _ in range(n_mixed)]
           + [gen_history(rng, "malformed", rng.randint(6, 10)) for _ in range(n_bad)]
           + [gen_history(rng, "nonascii", rng.randint(6, 10)) for _ in range(n_na)]
-          + [gen_recur(rng) for _ in range(n_rec)])
+          + [gen_recur(rng) for _ in range(n_rec)]
+          + [gen_env(rng) for _ in range(n_env)])
     items, codes = run_histories(chk, hs, stats)
     if codes is None:
         return
@@ -469,6 +562,8 @@ def run(chk):
     chk.cov["disagreements_checked"] = stats["disagreements"]
     chk.cov["input_distribution"] = {"clean_histories": n_clean, "mixed_histories": n_mixed, "malformed_histories": n_bad, "nonascii_histories": n_na,
                                      "recurring_ancestor_histories (>=3 levels, ancestor name inside descendants, RENAME/DELETE + STATUS per name)": n_rec,
+                                     "environment_histories (default name removed, then fresh store opens: delivery via the delivery side's manager, IMAP restart + login)": n_env,
+                                     "environment steps inside clean/mixed histories": "7% of the steps",
                                      "names": len(CLEAN) + len(DIRTY), "encoding": "atom or quoted, 50/50 when both are possible"}
     for (h, init, steps) in items[:1] + items[n_clean:n_clean + 1]:
         k = min(3, len(steps) - 1)
